@@ -147,6 +147,8 @@ let validate_elt (pts : bool) (uacts : act list) (scripts : (int * act list) lis
     match snd nx with
     | Some _ when pts && not passed.(x) -> passed.(x) <- true; eager x; skip_point x
     | _ -> () in
+  let check_obs w =
+    try check_obs w with Reject _ -> (skip_point 0; skip_point 1; check_obs w) in
   let need_owner k what =
     skip_point 0;
     if owner_gated () then rej "the owner performs %s but the model's owner is held before ~EventLoopThread" what;
@@ -244,7 +246,7 @@ let validate_elt (pts : bool) (uacts : act list) (scripts : (int * act list) lis
               | Some p when p <> obj && not passed.(x) -> skip_point x | _ -> ());
              let nx = if x = 0 then next_owner () else next_child () in
              (match snd nx with
-              | Some p when p = obj && not passed.(x) -> passed.(x) <- true
+              | Some p when p = obj -> passed.(x) <- true
               | _ -> rej "T%d is at point %s, the model's thread is not" x obj);
              check_obs obs; eager x
          | "write", 0 ->
